@@ -1,6 +1,9 @@
 package sequence
 
-import "sync/atomic"
+import (
+	"sync"
+	"sync/atomic"
+)
 
 type Seq uint64
 
@@ -20,6 +23,51 @@ func Set(s Seq) {
 
 func Next() Seq {
 	return Seq(atomic.AddUint64(&seq, 1))
+}
+
+var (
+	reservedM sync.Mutex
+	reserved  = make(map[Seq]struct{})
+)
+
+// Reserve draws the next number and keeps it reserved until release is called.
+// A transaction reserves its begin number for as long as it is not registered,
+// so that the collector's horizon (see Horizon) cannot overtake it.
+func Reserve() (s Seq, release func()) {
+	reservedM.Lock()
+	defer reservedM.Unlock()
+
+	s = Next()
+	reserved[s] = struct{}{}
+
+	return s, func() {
+		reservedM.Lock()
+		defer reservedM.Unlock()
+
+		delete(reserved, s)
+	}
+}
+
+// Horizon returns a number that no reserved number is before: the smallest
+// reserved number if there is one, a fresh number otherwise.
+func Horizon() Seq {
+	reservedM.Lock()
+	defer reservedM.Unlock()
+
+	var (
+		h     Seq
+		found bool
+	)
+	for s := range reserved {
+		if !found || s.Before(h) {
+			h, found = s, true
+		}
+	}
+	if !found {
+		h = Next()
+	}
+
+	return h
 }
 
 func (s Seq) After(o Seq) bool {
